@@ -33,6 +33,7 @@ class Step:
         self.note = None
         self.archive_info = None
         self.archive_path = None
+        self.foreign = None
 
 
 class Run:
@@ -128,6 +129,32 @@ def execute(scn, seed, plans=None, snapshots=True, keep=False, stop_after=None, 
             if k == "git":
                 _git_op(world, op)
                 continue
+            if k == "foreign":
+                # the same project checked out elsewhere (another machine): a task is run there at a
+                # chosen wall-clock time and everything is archived; the archive is then available here
+                root2 = work / "proj2"
+                if not root2.exists():
+                    S.materialize(scn, root2)
+                w2 = sim.Sim(root2, scn, seed ^ 0xF0F0, plans)
+                w2.disable_git = True
+                (root2 / "cond_config.toml").write_text("disable_git = true\n")
+                src_step = op.get("clock_of_step")
+                w2.clock = run.steps[src_step].clock if src_step is not None and src_step < len(run.steps) - 1 and \
+                    run.steps[src_step].clock is not None else world.clock
+                w2.inv_index = 500 + i
+                for t in op["targets"]:
+                    rop = {"op": "run", "target": t, "flags": {}, "cwd": "", "uid": "f%d-%s" % (i, t),
+                           "scripts": op.get("scripts", {})}
+                    rop["argv"] = S.op_argv(rop)
+                    w2.run_cond(rop)
+                aop = {"op": "archive", "out": op["out"], "out_path": str(arch / (op["out"] + ".tar.gz")),
+                       "flags": {}, "cwd": "", "uid": "fa%d" % i}
+                aop["argv"] = S.op_argv(aop)
+                snap2 = sim.snapshot(root2)
+                w2.run_cond(aop)
+                st.foreign = {"rows": snap2["rows"], "tree": snap2["tree"]}
+                world.count("fault.archive_from_another_checkout")
+                continue
             if k == "plant":
                 _plant(world, root, op)
                 if snapshots:
@@ -167,6 +194,8 @@ def execute(scn, seed, plans=None, snapshots=True, keep=False, stop_after=None, 
                 st.archive_path = str(src)
                 st.archive_info = _archive_rows(src)
             op["argv"] = S.op_argv(op)
+            if str(op.get("cwd", "")).startswith("@"):
+                op["cwd"] = _resolve_cwd_token(root, op["cwd"])
             if op.get("cwd") and not (root / op["cwd"]).is_dir():
                 op["cwd"] = ""      # the drawn directory does not exist (yet): start from the root
             st.cwd_used = op.get("cwd", "")
@@ -200,6 +229,25 @@ def execute(scn, seed, plans=None, snapshots=True, keep=False, stop_after=None, 
     if not keep:
         _safe_rmtree(work)
     return run
+
+
+def _resolve_cwd_token(root, token):
+    """@expdir:<k> = the k-th experiment version directory that exists under cond-out (recorded or not);
+    @insideexp:<k> = a sub-directory of it"""
+    import re as _re
+
+    kind, _, k = token[1:].partition(":")
+    co = root / "cond-out"
+    pat = _re.compile(r"^[a-zA-Z0-9_-]+\.task\.[1-9][0-9]*$")
+    dirs = sorted(str(p.relative_to(root)) for p in co.rglob("*") if p.is_dir() and not p.is_symlink()
+                  and pat.match(p.name) and "archive-tmp" not in p.parts) if co.is_dir() else []
+    if not dirs:
+        return ""
+    d = dirs[int(k or 0) % len(dirs)]
+    if kind == "insideexp":
+        subs = sorted(str(p.relative_to(root)) for p in (root / d).rglob("*") if p.is_dir())
+        return subs[0] if subs else d
+    return d
 
 
 def _git_op(world, op):
@@ -236,6 +284,11 @@ def _git_op(world, op):
     elif a == "remove":
         g.clear()
         g.update({"mode": "none"})
+    elif a == "nested":
+        # an independent repository inside the project (e.g. a vendored clone)
+        (world.root / op["dir"]).mkdir(parents=True, exist_ok=True)
+        g["nested"] = {"dir": op["dir"], "state": {"mode": "repo", "commits": {"n0": [], "n1": ["n0"]}, "head": "n1",
+                                                    "dirty": False, "branches": {"main": "n1"}, "cur_branch": "main"}}
     world.git = sim.FakeGit(g)
 
 
@@ -339,24 +392,30 @@ def _become_subreaper():
 
 
 def _reap_group(pgid):
-    """kill whatever real process the dead child left in its process group and wait until it is gone"""
+    """A real helper process (tar) that the dead child had started keeps running as an orphan, exactly
+    as after a real kill.  Let it finish (it is re-parented to us, see _become_subreaper) so that the
+    disk state we inspect does not depend on how far it happened to get; kill it only if it lingers."""
     import signal as _signal
     import time as _time
 
-    try:
-        sim.REAL.killpg(pgid, _signal.SIGKILL)
-    except (ProcessLookupError, PermissionError):
-        return
-    for _ in range(4000):
+    deadline = sim.REAL.time() + 20.0
+    while True:
         try:
-            sim.REAL.waitpid(-pgid, 0)
-            continue
+            pid, _ = sim.REAL.waitpid(-pgid, os.WNOHANG)
         except ChildProcessError:
             pass
+        else:
+            if pid != 0:
+                continue
         try:
             sim.REAL.killpg(pgid, 0)
         except (ProcessLookupError, PermissionError):
             return
+        if sim.REAL.time() > deadline:
+            try:
+                sim.REAL.killpg(pgid, _signal.SIGKILL)
+            except (ProcessLookupError, PermissionError):
+                return
         _time.sleep(0.0005)
 
 
